@@ -81,6 +81,18 @@ def check(ctx):
     caps, pm, _ = capabilities(a)
     classes = [c for c in a.protos if "pub" in caps.get(c.qual, set())]
     ctx.floor("publisher-capable classes", len(classes), 2)
+    # what is queued or in flight belongs to the address, not to the protocol object: a protocol built for a known address (a
+    # reconnection resuming the session) inherits it, so buildProtocol must not replace the containers an address already has
+    from .c19 import build_overwrites
+    from .common import where as _where
+    ow = build_overwrites(a)
+    for reg in (Q, W):
+        e = ow.get(reg)
+        ctx.ob("W-KEEP", "buildProtocol keeps the %s an address already has" % reg, e is None, where=_where(e) if e is not None else "src/mqtt/client/factory.py",
+               function=e.func if e is not None else "", construct="buildProtocol/%s/replaced" % reg,
+               msg="buildProtocol stores %s for the address whether or not it already has one: on a reconnection the messages %s are "
+                   "dropped - accepted, never sent, their Deferreds never fire" % (
+                       show(e.a["val"]) if e is not None else "", "held back in the queue" if reg == Q else "in flight"))
     nloops = 0
     for cls in classes:
         cat = catalogue(a, cls)
